@@ -137,8 +137,13 @@ Definition in_close (th : thread) : nat := match pc th with DtorClose _ _ => 1 |
 Definition in_dtor (th : thread) : nat :=
   match pc th with DtorLoad _ | DtorCas _ _ | DtorClose _ _ => 1 | _ => 0 end.
 
+Arguments nlive !th /.
+Arguments holds_take !th /.
+Arguments in_close !th /.
+Arguments in_dtor !th /.
+
 Lemma in_close_le_dtor th : in_close th <= in_dtor th.
-Proof. unfold in_close, in_dtor. destruct (pc th); lia. Qed.
+Proof. destruct th as [? ? [] ? ?]; cbn; lia. Qed.
 
 (** * "Gone" results and "started after the take" *)
 
@@ -295,6 +300,32 @@ Ltac solve_evs :=
   first [ assumption
         | eapply Forall_impl; [|eassumption]; intros ? ?; eapply ev_ok_mono; [|eassumption]; lia ].
 
+Ltac solve_gone_or_NB :=
+  first [ solve [intros Hg; exfalso; apply Hg; exact I] | solve [intros _; solve_NB] ].
+
+Ltac solve_ret_ok :=
+  let Heq := fresh "Heq" in
+  unfold ret_ok; intros ? ? ? Heq;
+  first [ discriminate Heq
+        | injection Heq as <- <- <-;
+          repeat match goal with |- _ /\ _ => split end;
+          [ solve_In
+          | solve_gone_or_NB
+          | let Hv := fresh in intros ? Hv; first [discriminate Hv | injection Hv as <-; first [reflexivity | lia]]
+          | let Hv := fresh in intros ? Hv; first [discriminate Hv | injection Hv as <-; first [reflexivity | lia]] ] ].
+
+Ltac solve_close_ok :=
+  let Heq := fresh "Heq" in
+  unfold close_ok; intros ? ? Heq;
+  first [ discriminate Heq | injection Heq as <- <-; split; [solve_In | red_cnt; lia] ].
+
+Ltac solve_dup_ok Ievs :=
+  let Heq := fresh "Heq" in let Hin := fresh "Hin" in
+  unfold dup_ok; intros ? ? ? Heq;
+  first [ discriminate Heq
+        | injection Heq as <- <- <-; intros ? ? ? Hin;
+          rewrite Forall_forall in Ievs; apply Ievs in Hin; cbn [ev_ok] in Hin; lia ].
+
 Lemma step_inv fd0 t c : Inv fd0 c -> Inv fd0 (step t c).
 Proof.
   intros I. unfold step. destruct (nth_error (threads c) t) as [th|] eqn:E; [|exact I].
@@ -334,9 +365,21 @@ Proof.
          let t0 := fresh "t0" in let th0 := fresh "th0" in let H0 := fresh "H0" in
          intros t0 th0 H0; destruct (Nat.eq_dec t t0) as [<-|Hne];
          [ rewrite (nth_upd_same _ _ _ _ E) in H0; injection H0 as <-; unfold th_ok, dt_ok, okk; cbn [pc done live];
-           repeat match goal with |- _ /\ _ => split end; auto; try solve_In; try solve [solve_NB]; try solve [intros; solve_NB]
+           repeat match goal with |- _ /\ _ => split end; auto; try solve_In; try lia; try solve [solve_NB]; try solve [intros; solve_NB]
          | rewrite nth_upd_other in H0 by assumption;
            repeat (apply th_ok_cons; [cbn [ev_tid]; assumption|]); apply Ithreads; assumption ]
        end.
-  Show.
-Abort.
+  all: try solve [intros Hg; exfalso; apply Hg; exact I].
+  all: try solve [right; split; [reflexivity|solve_NB]].
+  all: try match goal with |- ForallSuf _ _ =>
+         cbn [ForallSuf]; repeat match goal with |- _ /\ _ => split end; try assumption end.
+  all: try solve [solve_ret_ok].
+  all: try solve [solve_close_ok].
+  all: try solve [solve_dup_ok Ievs].
+Qed.
+
+Lemma exec_inv fd0 sched : forall c, Inv fd0 c -> Inv fd0 (exec sched c).
+Proof. induction sched as [|t r IH]; intros c I; cbn [exec]; [exact I|]. apply IH, step_inv, I. Qed.
+
+Lemma inv_reach fd0 progs sched : fd0 <> FD_INVALID -> Inv fd0 (exec sched (init fd0 progs)).
+Proof. intros H. apply exec_inv, inv_init, H. Qed.
